@@ -2,7 +2,7 @@
 
 (1) one physical code line of a corpus module gets `# pyrefact: ignore`; contract: that line is present verbatim in
     format_code(input).  (2) a `# pyrefact: skip_file` comment anywhere; contract: library, file and stdin entry points
-    hand the text back byte-for-byte (stdin mode: echoed plus print's newline), and the file is not rewritten.
+    hand the text back byte-for-byte (stdin mode included), and the file is not rewritten.
 (3) core.has_ignore_comment against an independent line scan on enumerated (text, range) pairs, last line included.
 """
 import ast
@@ -50,13 +50,17 @@ def annotate_cases(src, max_lines, rnd):
         l2 = list(lines)
         raw = l2[ln - 1].rstrip("\n")
         nl = "\n" if l2[ln - 1].endswith("\n") else ""
-        l2[ln - 1] = raw + "  # pyrefact: ignore" + nl
-        s2 = "".join(l2)
-        try:
-            ast.parse(s2)
-        except SyntaxError:
-            continue
-        out.append((s2, raw + "  # pyrefact: ignore", ln))
+        # the plain form, and forms whose whitespace the layout stages would touch (a tab before the comment, trailing blanks, spacing variant)
+        forms = ["  # pyrefact: ignore"] + (["\t# pyrefact: ignore", "  # pyrefact: ignore   ", "  #pyrefact:ignore"] if ln % 4 == 0 else [])
+        for form in forms:
+            l3 = list(l2)
+            l3[ln - 1] = raw + form + nl
+            s2 = "".join(l3)
+            try:
+                ast.parse(s2)
+            except SyntaxError:
+                continue
+            out.append((s2, raw + form, ln))
     return out
 
 
@@ -87,7 +91,8 @@ def work_skip(src):
     pmain = importlib.import_module("pyrefact.main")
     logs.set_level(100)
     fails = []
-    for variant in (src.rstrip("\n") + "\n# pyrefact: skip_file\n", "# pyrefact: skip_file\n" + src, src.replace("\n", "  # pyrefact: skip_file\n", 1)):
+    for variant in (src.rstrip("\n") + "\n# pyrefact: skip_file\n", "# pyrefact: skip_file\n" + src, src.replace("\n", "  # pyrefact: skip_file\n", 1),
+                    "#pyrefact:skip_file\n" + src, "#!/usr/bin/env python\n\"\"\"doc\"\"\"\n\n#  pyrefact :  skip_file\n" + src, src.rstrip("\n") + "\n# pyrefact: skip_file"):
         for kw in ({}, {"safe": True}, {"keep_imports": True}):
             try:
                 out = pyrefact.format_code(variant, **kw)
@@ -108,13 +113,13 @@ def work_skip(src):
                 continue
             if changed or open(p, encoding="utf-8").read() != variant or os.stat(p).st_mtime_ns != st:
                 fails.append({"cls": "skip:format_file", "what": "format_file rewrote / reported a change for a skip_file text", "input": variant})
-    # stdin mode (one subprocess per source: echoed unchanged, followed by print's newline)
-    variant = "# pyrefact: skip_file\n" + src
+    # stdin mode (one subprocess per variant): echoed byte-for-byte
     repo = os.environ.get("PYREFACT_REPO", "/repo")
-    p = subprocess.run([sys.executable, "-c", "import sys; sys.path.insert(0, %r); import importlib; main = importlib.import_module('pyrefact.main'); sys.exit(main.main(['--from-stdin']))" % repo],
-                       input=variant, capture_output=True, text=True, timeout=120)
-    if p.returncode != 0 or p.stdout != variant + "\n":
-        fails.append({"cls": "skip:stdin", "what": f"stdin mode did not echo a skip_file text unchanged (rc={p.returncode})", "input": variant})
+    for variant in ("# pyrefact: skip_file\n" + src, src.rstrip("\n") + "\n# pyrefact: skip_file"):
+        p = subprocess.run([sys.executable, "-c", "import sys; sys.path.insert(0, %r); import importlib; main = importlib.import_module('pyrefact.main'); sys.exit(main.main(['--from-stdin']))" % repo],
+                           input=variant, capture_output=True, text=True, timeout=120)
+        if p.returncode != 0 or p.stdout != variant:
+            fails.append({"cls": "skip:stdin", "what": f"stdin mode did not echo a skip_file text unchanged (rc={p.returncode}): {p.stdout[-40:]!r} vs {variant[-40:]!r}", "input": variant})
     return fails
 
 
